@@ -59,6 +59,25 @@ def ref_parts(buf: bytes):
     return int(i), int(fl), qs, s
 
 
+import re as _re
+_PLAIN = _re.compile(rb"^[A-Za-z0-9_-]{1,63}$")
+
+
+def qs_text(ref_qs):
+    """question section: reference rendering (wire labels) -> the layer's text rendering (dotted name); None when a label
+    is not a plain host-name label (L5: the text form of such labels is the idna codec's business)"""
+    if ref_qs == "-": return "-"
+    out = []
+    for q in ref_qs.split(";"):
+        w, t, c = q.split(":")
+        b, labels, i = unhx(w), [], 0
+        while b[i]:
+            labels.append(b[i + 1:i + 1 + b[i]]); i += 1 + b[i]
+        if not all(_PLAIN.match(l) and not l.lower().startswith(b"xn--") for l in labels): return None
+        out.append(f"{hx(b'.'.join(labels))}:{t}:{c}")
+    return ";".join(out)
+
+
 class Check(PropertyCheck):
     prop = "C27"
     design_ref = "§5 C27"
@@ -381,10 +400,21 @@ class Check(PropertyCheck):
         return obs
 
     # ------------------------------------------------------------------ the property
-    def _client_queries(self, case, upto):
-        """what the client sent on this connection up to event `upto` (independent framing + independent decoder):
-        list of (id, question-section rendering | None when only the implementation's decoder reads the message)"""
-        datas = [unhx(e[1]) for e in case["events"][:upto + 1] if e[0] == "c"]
+    # Every expected value below is derived from the case's INPUTS (bytes delivered, addon script) with the independent framing
+    # `walk_frames` and the independent decoder `ref_parts`; nothing in the oracle calls the code under test.
+    # Lenient branches (each exercised by known_selftest with an observation just outside it):
+    #  L1 a client frame the reference decoder cannot read counts as a query with its header id and UNKNOWN question section
+    #     (the codec may read more than the reference: C25/C26's subject) — only the question comparison is waived, only for that id;
+    #  L2 a message sent to the client is exempt from the id/question clause iff it renders exactly (id included) as a response
+    #     some addon action of the case sets;
+    #  L3 a crash is excused iff the response about to be sent was set by an action `r=…@<id > 65535>` (the addon's fault);
+    #  L4 a zero length prefix need not close its connection iff an EARLIER event already ended the layer (close / crash);
+    #  L5 a question section with a label that is not a plain host-name label is not compared between the two renderings;
+    #  L6 events the world did not deliver (connection closed / server not yet open) are not counted as sent.
+    def _client_queries(self, case, upto, delivered=None):
+        """what the client sent on this connection up to event `upto`: list of dicts id / qs (reference rendering | None, L1) /
+        qt (text rendering | None, L5) / opcode / rd — from the raw bytes only"""
+        datas = [unhx(e[1]) for i, e in enumerate(case["events"][:upto + 1]) if e[0] == "c" and (delivered is None or delivered[i])]
         msgs = []
         if case["transport"] == "udp": msgs = datas
         else:
@@ -392,65 +422,106 @@ class Check(PropertyCheck):
                 if f[0] == "msg": msgs.append(f[1])
         out = []
         for b in msgs:
+            if len(b) < 12: continue                          # no decoder reads a message without a complete header
+            i, fl = struct.unpack_from("!HH", b)
             r = ref_parts(b)
-            if r is not None: out.append((r[0], r[2]))
-            else:
-                try: out.append((dns.DNSMessage.unpack(b).id, None))
-                except Exception: pass
+            out.append({"id": i, "qs": r[2] if r else None, "qt": qs_text(r[2]) if r else None, "opcode": (fl >> 11) & 15, "rd": (fl >> 8) & 1})
         return out
 
+    @staticmethod
+    def _act_id(a):
+        h_, _, i_ = a[2:].partition("@")
+        return int(i_) if i_ else None
+
     def _addon_renders(self, case):
+        """reference renderings (id included) of the responses the addon script sets (L2)"""
         out = set()
         for a in case["acts"]:
             if a.startswith("r="):
-                h_, _, i_ = a[2:].partition("@")
-                r = ref_parts(unhx(h_))
+                r = ref_parts(unhx(a[2:].partition("@")[0]))
                 if r is not None:
-                    s = r[3]
-                    if i_: s = i_ + s[s.index(","):]
+                    s = r[3]; i = self._act_id(a)
+                    if i is not None: s = str(i) + s[s.index(","):]
                     out.add(s)
         return out
+
+    def _addon_pairs(self, case):
+        """(id, question section in text rendering) of the responses the addon script sets"""
+        out = set()
+        for a in case["acts"]:
+            if a.startswith("r="):
+                r = ref_parts(unhx(a[2:].partition("@")[0]))
+                if r is not None:
+                    i = self._act_id(a)
+                    out.add((r[0] if i is None else i, qs_text(r[2])))
+        return out
+
+    @staticmethod
+    def _crash_excused(items, k, acts):
+        """L3: items[k] == 'crash'; acts = the actions applied at the hooks of this event, in hook order"""
+        hooks = [(j, it.split(" ")[1]) for j, it in enumerate(items[:k]) if it.startswith("hook ")]
+        if not hooks or len(acts) < len(hooks): return False
+        big = lambda a: a.startswith("r=") and "@" in a and int(a.rpartition("@")[2]) > 65535
+        j2, h2 = hooks[-1]; a2 = acts[len(hooks) - 1]
+        if j2 != k - 1 or h2 != "dns_response": return False
+        if a2.startswith("r="): return big(a2)
+        if a2 == "x": return False
+        if len(hooks) < 2: return False
+        j1, h1 = hooks[-2]; a1 = acts[len(hooks) - 2]
+        return j1 == k - 2 and h1 == "dns_request" and big(a1)
 
     def oracle(self, case, obs):
         fails = []
         tcp = case["transport"] == "tcp"
-        addon = self._addon_renders(case)
-        addon_crash = any(a.endswith("@70000") for a in case["acts"])
+        addon, addon_pairs = self._addon_renders(case), self._addon_pairs(case)
+        all_q = self._client_queries(case, len(case["events"]), obs["delivered"])
+        n_req = 0
         for ei, items in enumerate(obs["given"]):
+            sent = self._client_queries(case, ei, obs["delivered"])
             for k, it in enumerate(items):
                 p = it.split(" ", 2)
-                if p[0] == "crash" and not addon_crash:
+                if p[0] == "crash" and not self._crash_excused(items, k, obs["acts_at"][ei]):
                     fails.append(f"event {ei}: an exception left the layer ({obs['notes']})")
                 if p[0] == "hook":
                     # "Every DNS flow mitmproxy reports to addons carries the query it belongs to"
                     req, resp, err = self._hook_fields(it)
                     if req is None:
                         fails.append(f"event {ei}: {p[1]} fired for a flow without request"); continue
+                    # input-derived: the request is a query the client has sent; the i-th dns_request announces the i-th query
+                    if not any(q["id"] == req[0] and (q["qt"] is None or q["qt"] == req[1]) for q in sent):
+                        fails.append(f"event {ei}: {p[1]} flow carries a request id={req[0]} q={req[1]} the client never sent")
+                    if p[1] == "dns_request":
+                        if n_req >= len(all_q) or all_q[n_req]["id"] != req[0] or all_q[n_req]["qt"] not in (None, req[1]):
+                            fails.append(f"event {ei}: dns_request #{n_req} announces id={req[0]} q={req[1]}, the client's message #{n_req} is "
+                                         f"{all_q[n_req] if n_req < len(all_q) else None}")
+                        n_req += 1
                     if p[1] == "dns_response":
                         if resp is None: fails.append(f"event {ei}: dns_response fired for a flow without response")
-                        elif not self._addon_msg(case, resp) and (resp[0] != req[0] or resp[1] != req[1]):
+                        elif (resp[0], resp[1]) not in addon_pairs and (resp[0] != req[0] or resp[1] != req[1]):
                             fails.append(f"event {ei}: dns_response flow pairs query id={req[0]} q={req[1]} with a response id={resp[0]} q={resp[1]}")
                     if p[1] == "dns_error":
                         # "including the SERVFAIL mitmproxy synthesises ..., which also keeps the opcode and recursion-desired flag"
                         nxt = items[k + 1] if k + 1 < len(items) else ""
                         if not nxt.startswith("send client "):
-                            if nxt != "crash" or not addon_crash: fails.append(f"event {ei}: dns_error is not followed by a reply to the client")
+                            fails.append(f"event {ei}: dns_error is not followed by a reply to the client")
                         else:
                             w = self._unwire(tcp, unhx(nxt.split(" ")[2]))
                             r = ref_parts(w) if w is not None else None
                             if r is None: fails.append(f"event {ei}: the synthesised reply is not a well-formed message")
                             else:
                                 i, fl = r[0], r[1]
+                                got = {"id": i, "opcode": (fl >> 11) & 15, "rd": (fl >> 8) & 1}
+                                if not (fl & 0x8000) or (fl & 15) != 2:
+                                    fails.append(f"event {ei}: synthesised reply has qr={(fl >> 15) & 1} rcode={fl & 15}")
+                                # input-derived: it is the SERVFAIL of a query the client sent (id, questions, opcode, RD from the raw bytes)
+                                if not any(q["id"] == i and q["qs"] in (None, r[2]) and q["opcode"] == got["opcode"] and q["rd"] == got["rd"] for q in sent):
+                                    fails.append(f"event {ei}: SERVFAIL {got} q={r[2]} keeps id/questions/opcode/RD of none of the client's queries {sent[:6]}")
+                                # consistency with the flow the error hook reported
                                 hdr = req[2]
                                 want = {"id": hdr[0], "opcode": hdr[2], "rd": hdr[5]}
-                                got = {"id": i, "opcode": (fl >> 11) & 15, "rd": (fl >> 8) & 1}
-                                if got != want or not (fl & 0x8000) or (fl & 15) != 2:
-                                    fails.append(f"event {ei}: SERVFAIL has {got} qr={(fl >> 15) & 1} rcode={fl & 15}, the query has {want}")
-                                try:
-                                    qs = D.render_list(D.render_q, dns.DNSMessage.unpack(w).questions)
-                                except Exception:
-                                    qs = "<undecodable>"
-                                if qs != req[1]: fails.append(f"event {ei}: SERVFAIL question section {qs} differs from the query's {req[1]}")
+                                if got != want: fails.append(f"event {ei}: SERVFAIL has {got}, the flow's query has {want}")
+                                if qs_text(r[2]) not in (None, req[1]):
+                                    fails.append(f"event {ei}: SERVFAIL question section {qs_text(r[2])} differs from the flow's query {req[1]}")
                 if p[0] == "open" and p[1] in ("fail", "killed"):
                     nxt = items[k + 1] if k + 1 < len(items) else ""
                     if not nxt.startswith("hook dns_error"): fails.append(f"event {ei}: failed upstream connect is not reported through dns_error")
@@ -461,10 +532,10 @@ class Check(PropertyCheck):
                     r = ref_parts(w) if w is not None else None
                     if r is None:
                         fails.append(f"event {ei}: bytes sent to the client are not one well-formed DNS message: {p[2][:80]}"); continue
-                    if r[3] in addon: continue
-                    qs = self._client_queries(case, ei)
-                    if not any(i == r[0] and (q is None or q == r[2]) for i, q in qs):
-                        fails.append(f"event {ei}: reply id={r[0]} questions={r[2]} sent to the client answers none of its queries {qs[:6]}")
+                    if r[3] in addon: continue                                                       # L2
+                    if not any(q["id"] == r[0] and q["qs"] in (None, r[2]) for q in sent):           # L1
+                        fails.append(f"event {ei}: reply id={r[0]} questions={r[2]} sent to the client answers none of its queries "
+                                     f"{[(q['id'], q['qs']) for q in sent[:6]]}")
         # "Over TCP, the sequence of DNS messages mitmproxy extracts does not depend on how the byte stream is segmented"
         flat = [x for it in obs["given"] for x in it]
         for name, v in obs["variants"].items():
@@ -476,11 +547,14 @@ class Check(PropertyCheck):
             for dirn, lab in (("c", "client"), ("s", "server")):
                 stream = b""
                 for ei, e in enumerate(case["events"]):
-                    if e[0] != dirn or not obs["delivered"][ei]: continue
+                    if e[0] != dirn or not obs["delivered"][ei]: continue                            # L6
                     stream += unhx(e[1])
                     if any(f[0] == "zero" for f in walk_frames(stream)):
-                        seen = [x for it in obs["given"][:ei + 1] for x in it]
-                        if not any(x.startswith("close ") or x == "crash" for x in seen):
+                        before = [x for it in obs["given"][:ei] for x in it]
+                        now = obs["given"][ei]
+                        ended_before = any(x.startswith("close ") or x == "crash" for x in before)  # L4
+                        crash_now = any(x == "crash" and self._crash_excused(now, k, obs["acts_at"][ei]) for k, x in enumerate(now))
+                        if not ended_before and f"close {lab}" not in now and not crash_now:
                             fails.append(f"event {ei}: zero length prefix from the {lab} did not close the connection")
                         break
         return fails[:6]
@@ -506,16 +580,6 @@ class Check(PropertyCheck):
                 hdr = [int(x) for x in f[0].split(",")]
                 out.append((hdr[0], f[1], hdr))
         return out[0], out[1], rest.strip() == "1"
-
-    def _addon_msg(self, case, resp):
-        """is this (id, questions) the response some addon action of the case set?"""
-        for a in case["acts"]:
-            if a.startswith("r="):
-                h_, _, i_ = a[2:].partition("@")
-                try: m = dns.DNSMessage.unpack(unhx(h_))
-                except Exception: continue
-                if (int(i_) if i_ else m.id) == resp[0] and D.render_list(D.render_q, m.questions) == resp[1]: return True
-        return False
 
     # ------------------------------------------------------------------ model tie
     def _obs_for(self, case):
@@ -553,7 +617,7 @@ class Check(PropertyCheck):
                 p = x.split(" ")
                 kinds.add(" ".join(p[:2]) if p[0] in ("hook", "send", "close", "open") else p[0])
         out += sorted(kinds) + ["variant:" + v for v in obs["variants"]]
-        ids = [q[0] for q in self._client_queries(case, len(case["events"]))]
+        ids = [q["id"] for q in self._client_queries(case, len(case["events"]))]
         if len(ids) != len(set(ids)): out.append("duplicated-id")
         if any(a != "p" for a in case["acts"]): out.append("addon-acts")
         return out
